@@ -160,8 +160,9 @@ Enabled(c) ==
        /\ c \in Cmds
        /\ (c.op \in {"FIN", "REQ", "TOUCH"} /\ c.a = "held") => (held > 0)
        /\ (c.op \in {"FIN", "REQ", "TOUCH"} /\ c.a = "other") => (st \in {"sub", "closing"})
-       \* renegotiating on a compressed connection is not defined by the protocol: not explored
-       /\ (c.op = "IDENTIFY") => (zip = "none")
+       \* IDENTIFY may be repeated while the connection is in state init (the code's rule), also on a
+       \* compressed connection; only negotiating compression a second time is not defined: not explored
+       /\ (c.op = "IDENTIFY" /\ zip # "none") => ~(c.a = "dl" \/ (c.a = "comp" /\ c.b \in {"snappy", "deflate", "both"}))
 
 (* ------------------------------------------------------------------ outcomes *)
 Err(codes)   == [frame |-> "err",   body |-> "-", codes |-> codes, fatal |-> TRUE,  echo |-> "-"]
